@@ -32,6 +32,7 @@ type Result struct {
 	Panics   []string // per thread ("" = none)
 	Steps    int      // scheduling points passed
 	Trace    []string // thread:label per step (bounded)
+	Leaked   []string // functions that took a lock which is still held after every thread has returned
 }
 
 type abortT struct{}
@@ -158,6 +159,7 @@ func Run(cx *mc.Ctx, bodies ...func()) Result {
 	prev := vrt.Scheduler
 	vrt.Scheduler = s
 	defer func() { vrt.Scheduler = prev }()
+	vrt.ResetHeldLocks()
 	var wg sync.WaitGroup
 	for i, b := range bodies {
 		wg.Add(1)
@@ -190,6 +192,10 @@ func Run(cx *mc.Ctx, bodies ...func()) Result {
 		if strings.HasPrefix(t.pan, "HARNESS-NONDETERMINISM") {
 			panic(mc.Nondeterminism{Msg: t.pan})
 		}
+	}
+	if s.res.Deadlock == "" {
+		// every thread has returned: a lock that is still held was never released (a later user of it would block for ever)
+		s.res.Leaked = vrt.HeldLocks()
 	}
 	return s.res
 }
